@@ -32,6 +32,8 @@ const FIRST_EXPORTED: u64 = 1 << 24;
 const FAULT_EXIT: u32 = 7;
 /// sequence number of the signer-limit probe
 const PROBE_SEQ: u64 = 1_000_000;
+/// scripted: a transaction with three approvals whose first approver is removed, then cancel attempts
+const PURGE_SEQ: u64 = 1_000_001;
 
 fn atto(n: i64) -> TokenAmount {
     TokenAmount::from_atto(n)
@@ -1204,7 +1206,7 @@ pub fn run(cfg: &RunCfg) -> Report {
     let nseq = nseq * cfg.budget;
     let mut lean = if cfg.use_lean { Some(LeanDriver::spawn("multisig").expect("lean driver")) } else { None };
     let mut seen = HashSet::new();
-    let seqs: Vec<u64> = match cfg.only_seq { Some(k) => vec![k], None => std::iter::once(PROBE_SEQ).chain(0..nseq).collect() };
+    let seqs: Vec<u64> = match cfg.only_seq { Some(k) => vec![k], None => [PROBE_SEQ, PURGE_SEQ].into_iter().chain(0..nseq).collect() };
     let mut tot_sends = 0u64;
     let mut tot_reentrant = 0u64;
     let mut tot_failed = 0u64;
@@ -1241,6 +1243,36 @@ pub fn run(cfg: &RunCfg) -> Report {
                 rep.ops += 1;
                 s.deliver(&m, None, &mut rep)?;
             }
+            Ok(())
+        })() } else if seq == PURGE_SEQ { (|| {
+            // ---- 4-of-5 wallet; tx0 proposed by signer 0 and approved by signers 1 and 2 stays pending;
+            // tx1 removes signer 0 (or swaps it out) and reaches its quorum; afterwards the earliest
+            // remaining approver of tx0 is signer 1: signer 2 must not be able to cancel it, signer 1 must.
+            let ids: Vec<u64> = s.e.accts.iter().map(|a| a.id().unwrap()).collect();
+            rep.op("create");
+            let a = match s.create(0, 0, &ids[0..5], 4, 0, 0, 100)? { Some(a) => a, None => return Ok(()) };
+            let swap = r.chance(1, 2);
+            let mut send = |s: &mut Seq, from: usize, method: u64, params: Option<IpldBlock>, hash_ok: Option<bool>, desc: String, rep: &mut Report| -> Result<(), Bad> {
+                let m = TopMsg { from, wi: 0, value: 0, method, params, hash_ok, desc };
+                s.lines.push(format!("# {}", m.desc));
+                rep.op(m.desc.split(' ').next().unwrap());
+                rep.ops += 1;
+                s.deliver(&m, None, rep)
+            };
+            let prop = |s: &Seq, to: u64, value: i64, method: u64, list: &[i64]| IpldBlock::serialize_cbor(&ProposeParams { to: Address::new_id(to), value: atto(value), method, params: s.e.encode(to, method, list) }).unwrap();
+            let txn = |id: i64| IpldBlock::serialize_cbor(&TxnIDParams { id: TxnID(id), proposal_hash: vec![] }).unwrap();
+            let p0 = prop(&s, ids[5], 1, 0, &[]);
+            send(&mut s, 0, 2, p0, None, format!("propose to={} value=1 method=0 params=[]", ids[5]), &mut rep)?;
+            send(&mut s, 1, 3, txn(0), Some(true), "approve id=0".into(), &mut rep)?;
+            send(&mut s, 2, 3, txn(0), Some(true), "approve id=0".into(), &mut rep)?;
+            let (method, list): (u64, Vec<i64>) = if swap { (7, vec![ids[0] as i64, ids[5] as i64]) } else { (6, vec![ids[0] as i64, 0]) };
+            let p1 = prop(&s, a, 0, method, &list);
+            send(&mut s, 1, 2, p1, None, format!("propose to={} value=0 method={} params={:?}", a, method, list), &mut rep)?;
+            for who in [2usize, 3, 4] {
+                send(&mut s, who, 3, txn(1), Some(true), "approve id=1".into(), &mut rep)?;
+            }
+            send(&mut s, 2, 4, txn(0), Some(true), "cancel id=0".into(), &mut rep)?;
+            send(&mut s, 1, 4, txn(0), Some(true), "cancel id=0".into(), &mut rep)?;
             Ok(())
         })() } else { (|| {
             // ---- wallet A (sometimes after refused constructors)
